@@ -26,6 +26,7 @@ type stubTransport struct {
 	failAt  int // 1-based; 0 = never
 	inner   xmpp.Transport
 	pingErr error
+	onWrite func(p []byte) // called with the bytes of every Write before it returns (C07: response racing the request)
 }
 
 func (s *stubTransport) Connect() (string, error) {
@@ -76,6 +77,9 @@ func (s *stubTransport) Read(p []byte) (int, error) {
 	return 0, io.EOF
 }
 func (s *stubTransport) Write(p []byte) (int, error) {
+	if s.onWrite != nil {
+		s.onWrite(p)
+	}
 	if s.inner != nil {
 		return s.inner.Write(p)
 	}
